@@ -29,6 +29,8 @@ pub struct Case {
 pub struct Set {
     pub cases: Vec<Case>,
     pub armed: Armed,
+    /// multi-selector segments of the "index-run-union" family, by case index
+    pub unions: std::collections::HashMap<usize, Vec<Selector>>,
 }
 
 const M: i64 = 9007199254740991;
@@ -42,6 +44,7 @@ fn opt_range(lo: i64, hi: i64) -> Vec<Option<i64>> {
 impl Set {
     pub fn new(tier: Tier, armed: Armed) -> Set {
         let mut cases = vec![];
+        let mut unions: Vec<(usize, Vec<Selector>)> = vec![];
         let (max_len, b, s) = match tier {
             Tier::Quick => (6usize, 8i64, 4i64),
             Tier::Thorough => (9, 12, 6),
@@ -62,6 +65,24 @@ impl Set {
                 for context in 0..6u8 {
                     cases.push(Case { len, sel: Selector::Index(i), context, family: "index-sweep" });
                 }
+            }
+        }
+        // unions: runs of consecutive indices (ascending / descending, every start), index+slice
+        for len in [0usize, 1, 3, 5, 8] {
+            for start in -9i64..=9 {
+                for run in 2..=6i64 {
+                    for dir in [1i64, -1] {
+                        let idxs: Vec<i64> = (0..run).map(|k| start + dir * k).collect();
+                        cases.push(Case { len, sel: Selector::Index(i64::MAX), context: 0, family: "index-run-union" });
+                        let last = cases.len() - 1;
+                        cases[last].sel = Selector::Filter(Or(vec![])); // placeholder, replaced through `unions`
+                        unions.push((last, idxs.iter().map(|i| Selector::Index(*i)).collect()));
+                    }
+                }
+            }
+            for (a, b) in [(Selector::Slice(Some(1), None, None), Selector::Index(0)), (Selector::Index(-1), Selector::Slice(None, None, Some(-1))), (Selector::Slice(None, Some(2), None), Selector::Slice(Some(-2), None, None))] {
+                cases.push(Case { len, sel: Selector::Filter(Or(vec![])), context: 0, family: "index-run-union" });
+                unions.push((cases.len() - 1, vec![a, b]));
             }
         }
         // extremes at the edge of the I-JSON range
@@ -93,7 +114,16 @@ impl Set {
                 cases.push(Case { len, sel: sel.clone(), context: 1, family: "non-array" });
             }
         }
-        Set { cases, armed }
+        Set { cases, armed, unions: unions.into_iter().collect() }
+    }
+
+    fn build_idx(&self, idx: usize) -> (Query, J) {
+        let c = &self.cases[idx];
+        if let Some(sels) = self.unions.get(&idx) {
+            let arr = J::Arr((0..c.len as i64).map(J::int).collect());
+            return (Query::root(vec![Segment { descendant: false, selectors: sels.clone() }]), arr);
+        }
+        self.build(c)
     }
 
     fn build(&self, c: &Case) -> (Query, J) {
@@ -143,12 +173,12 @@ impl CaseSet for Set {
     }
     fn describe(&self, idx: usize) -> Value {
         let c = &self.cases[idx];
-        let (q, d) = self.build(c);
+        let (q, d) = self.build_idx(idx);
         json!({"kind": "query", "query": render_canonical(&q), "document": serde_json::from_str::<Value>(&d.to_text()).unwrap_or(Value::Null), "family": c.family, "array_length": c.len})
     }
     fn run(&self, idx: usize, acc: &mut Acc) -> Vec<(String, Value)> {
         let c = &self.cases[idx];
-        let (ast, dj) = self.build(c);
+        let (ast, dj) = self.build_idx(idx);
         let doc = Doc::new(&dj);
         let text = render_canonical(&ast);
         let mut out = vec![];
